@@ -20,7 +20,7 @@ RunVerdict(c) ==
     LET h == Halt(c.cond, c.T, c.mn, c.mx, c.conv, R) IN
     IF c.halt > Min2(c.mx, c.T) /\ c.cond # "time" THEN "run: ran past the condition's max_steps / the total step count"
     ELSE IF c.halt > c.T THEN "run: ran past the total step count"
-    ELSE IF c.cond # "time" /\ c.halt < Min2(c.mn, c.T) THEN "run: stopped before min_steps"
+    ELSE IF c.cond # "time" /\ c.halt < Min2(c.mn, Min2(c.mx, c.T)) THEN "run: stopped before min_steps"
     ELSE IF c.halt # h THEN "run: did not halt at the first step at which the condition reports stop"
     ELSE IF c.nfwd # c.halt THEN "run: number of executed forward steps differs from the returned step count"
     ELSE IF ~(Near(c.fpE, c.pfpE, c.tol) /\ Near(c.fpH, c.pfpH, c.tol) /\ Near(c.fpD, c.pfpD, c.tol))
